@@ -1595,7 +1595,7 @@ func runC16(c *core.Ctx) {
 	nv := len(c16Variants)
 	sweepA := len(c16SweepSizes) * len(c16Names) * 2
 
-	c.Cases("rt", c.N(5600, 140000), func(k *core.Case) {
+	c.Cases("rt", c.N(14000, 140000), func(k *core.Case) {
 		r := k.R
 		// ---- draw the case
 		name := c16Names[r.Intn(len(c16Names))]
